@@ -619,8 +619,11 @@ def run_materials(ctx):
                 same = comp.keys() == first.keys() and all(math.isclose(comp[k], first[k], rel_tol=1e-12, abs_tol=0.0) for k in comp)
                 okr = all(isinstance(v, (int, float)) and 0.0 <= v <= 1.0 for v in comp.values()) and all(k in nb.byName for k in comp)
                 if not (same and okr) and first and all(0.0 <= v <= 1.0 for v in first.values()):
-                    ctx.fail(f"material-composition-stable-{name}",
-                             "every instance of a material class has the same composition (known nuclides, fractions in [0,1])",
+                    key = (f"material-composition-stable-{name}" if label == "instantiation"
+                           else f"material-setDefaultMassFracs-idempotent-{name}")
+                    ctx.fail(key,
+                             "every instance of a material class has the same default composition (known nuclides, fractions in [0,1]), "
+                             "also when the defaults are set again",
                              dict(case, instance=rep + 1, after=label), observed=comp, expected=first)
                     break
             else:
